@@ -1308,6 +1308,13 @@ class Node:
         self.remove_peer_connection(conn, disconnect_reason)
 
     def receive_cea(self, conn: PeerConnection, message: CapabilitiesExchangeAnswer):
+        if conn.state != PEER_CONNECTED:
+            # capabilities have been exchanged already, or the connection has
+            # been closed in the meantime; must not become ready (again)
+            self.logger.warning(
+                f"{conn} got a CEA while not waiting for one, ignoring")
+            return
+
         if message.result_code != constants.E_RESULT_CODE_DIAMETER_SUCCESS:
             self.logger.warning(
                 f"{conn} CER rejected with {message.result_code} (message: "
@@ -1341,6 +1348,13 @@ class Node:
             f"{conn.acct_application_ids}")
 
     def receive_cer(self, conn: PeerConnection, message: CapabilitiesExchangeRequest):
+        if conn.state != PEER_CONNECTED:
+            # capabilities have been exchanged already, or the connection has
+            # been closed in the meantime; must not become ready (again)
+            self.logger.warning(
+                f"{conn} got a CER while not waiting for one, ignoring")
+            return
+
         answer: CapabilitiesExchangeAnswer = self._generate_answer(conn, message)
         answer.host_ip_address = self.ip_addresses
         answer.vendor_id = self.vendor_id
